@@ -127,7 +127,7 @@ def rand_strength(rng, shape=None, cplx=False):
     return s
 
 
-def build_model(ctx, rng, lat, explicit_plus_hc=False, allow_exp=True, long_range=0, force_multi=False):
+def build_model(ctx, rng, lat, explicit_plus_hc=False, allow_exp=True, long_range=0, force_multi=False, force_gapped=False):
     """Add random terms; returns (model, calls, reference dense matrix for finite lattices or None)."""
     from tenpy.models.model import CouplingModel
     from vf import dense
@@ -162,7 +162,7 @@ def build_model(ctx, rng, lat, explicit_plus_hc=False, allow_exp=True, long_rang
 
     for call_no in range(ncalls):
         kind = str(rng.choice(['add_onsite', 'add_coupling', 'add_coupling', 'add_multi_coupling', 'add_exp', 'add_local_term', 'add_exp_centered']))
-        if force_multi and call_no == 0:
+        if (force_multi or force_gapped) and call_no == 0:
             kind = 'add_multi_coupling'
         cplx = rng.random() < 0.3
         if kind == 'add_onsite':
@@ -215,7 +215,7 @@ def build_model(ctx, rng, lat, explicit_plus_hc=False, allow_exp=True, long_rang
             if not plus_hc:
                 hermitian = None if hermitian else hermitian  # cannot tell in general
         elif kind == 'add_multi_coupling':
-            nops = int(rng.integers(2, 4))
+            nops = int(rng.integers(2, 5 if long_range else 4))
             far = None
             if force_multi and call_no == 0:
                 # three or four operators spread over several unit cells (increasing positions)
@@ -231,6 +231,39 @@ def build_model(ctx, rng, lat, explicit_plus_hc=False, allow_exp=True, long_rang
                     dx = [far[k - 1]] + [0] * (lat.dim - 1)
                 name = op_names(uc[u], rng, 'bosonic' if rng.random() < 0.6 else 'any')
                 ops.append((name, dx, u))
+            if nops >= 3 and rng.random() < 0.5 and any(op_names(uc[o[2]], rng, 'fermionic') for o in ops):
+                # strings of Jordan-Wigner factors over gaps: several fermionic operators behind bosonic ones
+                kinds_ = [['bosonic', 'fermionic', 'fermionic'], ['fermionic', 'bosonic', 'fermionic'], ['fermionic', 'fermionic', 'fermionic', 'fermionic'],
+                          ['bosonic', 'bosonic', 'fermionic', 'fermionic'], ['fermionic', 'fermionic', 'bosonic']]
+                kinds_ = [k_ for k_ in kinds_ if len(k_) == nops]
+                pat = kinds_[int(rng.integers(len(kinds_)))]
+                ops = [(op_names(uc[u_], rng, kd_), dx_, u_) for (n_, dx_, u_), kd_ in zip(ops, pat)]
+                if rng.random() < 0.6 and far is None:
+                    # increasing positions along the first direction with one site skipped somewhere
+                    skip_at = int(rng.integers(1, nops))
+                    pos, ops2 = 0, []
+                    for k_, (n_, dx_, u_) in enumerate(ops):
+                        if k_ > 0:
+                            pos += 2 if k_ == skip_at else 1
+                        ops2.append((n_, [pos] + [0] * (lat.dim - 1), 0 if len(uc) == 1 else u_))
+                    if len(uc) == 1:
+                        ops = ops2
+                        ctx.count('call.multi_coupling_gapped_string')
+                ctx.count('call.multi_coupling_fermionic_pattern')
+            if force_gapped and call_no == 0 and len(uc) == 1 and op_names(uc[0], rng, 'fermionic'):
+                # A | skipped site(s) | B with an even number (>= 2) of fermionic operators in B and in A: no Jordan-Wigner string on
+                # the skipped sites although fermionic operators follow
+                f_ = op_names(uc[0], rng, 'fermionic')
+                fd_ = uc[0].get_hc_op_name(f_)
+                b_ = op_names(uc[0], rng, 'bosonic')
+                if b_ is None or not neutral([(uc[0], b_)]):
+                    b_ = 'N' if 'N' in uc[0].opnames else ('Ntot' if 'Ntot' in uc[0].opnames else None)
+                A_ = [b_] if (rng.random() < 0.5 and b_ is not None) else [f_, fd_]
+                B_ = [f_, fd_] if rng.random() < 0.5 else [fd_, f_]
+                gap_ = int(rng.integers(1, 3))
+                pos_ = list(range(len(A_))) + [len(A_) - 1 + gap_ + 1 + k_ for k_ in range(len(B_))]
+                ops = [(n_, [p_] + [0] * (lat.dim - 1), 0) for n_, p_ in zip(A_ + B_, pos_)]
+                ctx.count('call.multi_coupling_gap_before_fermion_pair')
             if any(o[0] is None for o in ops):
                 continue
             nf = sum(1 for n, dx, u in ops if uc[u].op_needs_JW(n))
@@ -245,7 +278,12 @@ def build_model(ctx, rng, lat, explicit_plus_hc=False, allow_exp=True, long_rang
             plus_hc = bool(rng.random() < 0.5)
             st = rand_strength(rng, None, cplx)
             plus_hc = herm_ok(plus_hc, st, [(uc[u_], n_) for n_, dx_, u_ in ops])
-            m.add_multi_coupling(st, ops, plus_hc=plus_hc)
+            try:
+                m.add_multi_coupling(st, ops, plus_hc=plus_hc)
+            except ValueError as e:
+                if 'onsite term instead of coupling' in str(e):
+                    raise _Skip()  # a periodic wrap put all operators on one site (documented: combine them into one operator)
+                raise
             calls.append(['add_multi_coupling', repr(st), [[n, dx, u] for n, dx, u in ops], plus_hc])
             ctx.count('call.add_multi_coupling')
             dxs = np.array([o[1] for o in ops])
@@ -359,7 +397,10 @@ def case_random(ctx, i):
     rng = ctx.rng
     lat, kind, geo = make_lattice(rng)
     explicit = bool(rng.random() < 0.3)
-    m, calls, ref, _ = build_model(ctx, rng, lat, explicit_plus_hc=explicit)
+    # (a third of the finite models get couplings reaching over several sites: gaps inside multi-site terms)
+    gapped = bool(rng.random() < 0.3 and lat.dim == 1 and len(lat.unit_cell) == 1 and lat.N_sites >= 5 and op_names(lat.unit_cell[0], rng, 'fermionic'))
+    m, calls, ref, _ = build_model(ctx, rng, lat, explicit_plus_hc=explicit, long_range=int(rng.integers(2, 4)) if rng.random() < 0.35 else 0,
+                                   force_gapped=gapped)
     sites = lat.mps_sites()
     case = {'lattice': geo, 'Ls': list(map(int, lat.Ls)), 'bc': [bool(b) for b in lat.bc], 'order': lat.order.tolist(), 'sites': kind,
             'explicit_plus_hc': explicit, 'calls': calls}
